@@ -96,7 +96,10 @@ def main(argv):
                     nm, _, rest = line.partition(' ')
                     if rest.startswith('{') and os.path.isdir(os.path.join(SEEDED, nm)):
                         allres[nm] = json.loads(rest)
-        allres.update(results)
+        for k_, row_ in results.items():
+            if 'tests_pass' not in row_ and 'tests_pass' in allres.get(k_, {}):
+                row_['tests_pass'] = allres[k_]['tests_pass']    # the suite verdict of an earlier --tests run stays valid for the same patch
+            allres[k_] = row_
         results = {k: v for k, v in allres.items() if os.path.isdir(os.path.join(SEEDED, k))}
         json.dump(results, open(rj, 'w'), indent=1, sort_keys=True)
         caught = sum(1 for r in results.values() if any(isinstance(v, dict) and v.get('exit') == 1 for v in r.values()))
